@@ -63,6 +63,8 @@ def enc_val(v) -> str:
         return "L[" + ",".join("U[" + enc_val(k) + "," + enc_val(x) + "]" for k, x in v) + "]"
     if isinstance(v, list):
         return "L[" + ",".join(enc_val(x) for x in v) + "]"
+    if isinstance(v, (set, frozenset)):        # x2: members sorted by wire form (hash-table order is not modelled)
+        return "O" + type(v).__name__ + "{items=L[" + ",".join(sorted(enc_val(x) for x in v)) + "]}"
     tn = type(v).__name__
     if tn == "NegativeInfinityType":
         return "m"
@@ -132,6 +134,8 @@ class _P:
                 self.i = k + 1
                 fields[key] = self.val()
             self.i += 1
+            if name in ("set", "frozenset"):
+                return (set if name == "set" else frozenset)(fields["items"])
             cls, _ = _OBJ_CLASSES[name]
             if issubclass(cls, tuple):
                 return cls(**fields)
@@ -534,7 +538,70 @@ def _g_two_tags(rng):
     return [a, b]
 
 
+def _g_canonicalize_name(rng):
+    from props import C13 as P13
+    while True:
+        s = P13.random_name(rng)
+        if "Σ" not in s:
+            return [s, rng.random() < 0.5]
+
+
+def _g_is_normalized_name(rng):
+    return [_g_canonicalize_name(rng)[0]]
+
+
+def _g_parse_tag(rng):
+    from props import C14 as P14
+    while True:
+        t = P14.rand_tag_string(rng)
+        if t.isascii():                        # Tag.__init__ lower-cases with the ASCII run-time function
+            return [t]
+
+
+def _g_parse_sdist(rng):
+    from props import C14 as P14
+    from gen import versions as GV
+    while True:
+        sd = P14.sdist_struct(rng)
+        q = rng.random()
+        if q < 0.5:
+            f = P14.assemble_sdist(sd)
+        elif q < 0.65:
+            f = P14.assemble_sdist(sd, version_text=rng.choice(P14.BAD_VERSIONS + [GV.spell(rng, sd["ver"])]))
+        elif q < 0.85:
+            f = GV.malformed(rng, P14.assemble_sdist(sd))
+        else:
+            f = P14.assemble_sdist(sd)[: -len(sd["ext"])] + rng.choice([".tgz", ".tar", ".ZIP", ".tar.gz\n", "", ".whl", ".zip.zip"])
+        if "Σ" not in f:
+            return [f]
+
+
+def _g_parse_wheel(rng):
+    from props import C14 as P14
+    from gen import versions as GV
+    while True:
+        w = P14.wheel_struct(rng)
+        r = rng.random()
+        if r < 0.35:
+            f = P14.assemble_wheel(w)
+        elif r < 0.55:
+            f = P14.spelled_wheel(rng, w)
+        elif r < 0.85:
+            kind = rng.choice(["extension", "parts", "name", "name_trailing_newline", "build", "build_unicode_digit", "version"])
+            f = P14.damage_wheel(rng, w, kind)[0]
+        else:
+            f = GV.malformed(rng, P14.assemble_wheel(w))
+        # the tag part must be ASCII (run-time restriction of Tag.__init__); the name part may be anything
+        if "Σ" not in f and "-".join(f.split("-")[1:]).isascii():
+            return [f]
+
+
 FUNCS.update({
+    "canonicalize_name": ("packaging.utils", "canonicalize_name", _g_canonicalize_name),
+    "is_normalized_name": ("packaging.utils", "is_normalized_name", _g_is_normalized_name),
+    "parse_tag": ("packaging.tags", "parse_tag", _g_parse_tag),
+    "parse_sdist_filename": ("packaging.utils", "parse_sdist_filename", _g_parse_sdist),
+    "parse_wheel_filename": ("packaging.utils", "parse_wheel_filename", _g_parse_wheel),
     "_BaseVersion.__ne__": ("packaging.version", "_BaseVersion.__ne__", _g_two_versions),
     "Tag.__str__": ("packaging.tags", "Tag.__str__", _g_tag_method),
     "Tag.__eq__": ("packaging.tags", "Tag.__eq__", _g_two_tags),
